@@ -57,61 +57,26 @@ theorem find_lsb0_alignedFind_witness :
 
 /-! ### findall: the reverse chunk scan -/
 
-/- Full statement (`findall_lsb0_chunks_eq`; fails on the unchanged tree, findings `lsb0-findall-chunks`,
-   `lsb0-findall-count-aligned`):
-     ∀ inc ≥ 1, ∀ l t a b count ba, a ≤ b → b ≤ |l| → t ≠ [] →
-       findallLsb0 inc l t a b count ba = .ok (findallMsb0 l.reverse t.reverse a b count ba)
-   It is proved below for the repaired loop (`findall_fixed_chunks_eq`). -/
-/-- For every chunk increment: when the search window fits into one chunk, the scan yields exactly the
-    mirrored positions of all msb0 matches, in increasing lsb0 order, cut off after `count`, filtered by
-    alignment of the lsb0 position — i.e. what msb0 `findall` yields on the reversed operands. -/
-theorem findall_lsb0_chunks_eq_partial (inc : Nat) (l t : Bits) (a b : Nat) (count : Option Nat) (ba : Bool)
-    (hab : a ≤ b) (hb : b ≤ l.length) (ht : t ≠ [])
-    (hchunk : multiChunk inc t.length a b = false) (hcount : countAligned count ba = false) :
-    findallLsb0 inc l t a b count ba = .ok (findallMsb0 l.reverse t.reverse a b count ba) :=
-  findall_lsb0_chunks_eq_partial_s inc l t a b count ba hab hb ht hchunk hcount
-
-/-- The public method with the code's own constant: up to 8192 bits every window is a single chunk. -/
-theorem findall_lsb0_mirror_partial (l t : Bits) (start stop : Option Int) (count : Option Int) (ba : Bool)
-    (ht : t ≠ []) (hlen : l.length ≤ 8192) (hcount : countAligned count ba = false) :
-    findallOp .lsb0 l t start stop count ba = findallOp .msb0 l.reverse t.reverse start stop count ba :=
-  findall_lsb0_mirror_partial_s l t start stop count ba ht hlen hcount
-
-/-- Beyond one chunk the unchanged loop loses the left-most chunk when the chunk before it had a match
-    (`pos == msb0_start` is tested after `pos` has been moved, before that chunk is searched) … -/
-theorem findall_lsb0_multiChunk_witness_missing :
-    multiChunk 1 1 0 3 = true ∧
-    findallLsb0 1 [true, false, true] [true] 0 3 none false = .ok [0] ∧
-    findallMsb0 [true, false, true].reverse [true].reverse 0 3 none false = [0, 2] := by
-  decide
-
-/-- … and reports a match that starts exactly where a chunk starts twice (consecutive windows overlap by
-    `len(bs)` bits, one more than needed). -/
-theorem findall_lsb0_multiChunk_witness_duplicate :
-    multiChunk 1 1 0 4 = true ∧
-    findallLsb0 1 [false, false, true, false] [true] 0 4 none false = .ok [1, 1] ∧
-    findallMsb0 [false, false, true, false].reverse [true].reverse 0 4 none false = [1] := by
-  decide
-
-/-- `count` is compared before the alignment filter: unaligned matches use it up. -/
-theorem findall_lsb0_countAligned_witness :
-    countAligned (some 2) true = true ∧
-    findallLsb0 8192 [false, false, true, false, false, true, true, false, false] [false] 1 9 (some 2) true = .ok [] ∧
-    findallMsb0 [false, false, true, false, false, true, true, false, false].reverse [false].reverse 1 9 (some 2) true = [8] := by
-  decide
-
-/-- `findall_lsb0_chunks_eq` for the repaired loop (notes/fix_C12_findall-chunks.diff): for EVERY chunk increment
-    ≥ 1, every data length, window, count and alignment flag the chunked reverse scan equals msb0 `findall` on
-    the reversed operands. -/
-theorem findall_fixed_chunks_eq (inc : Nat) (hinc : 1 ≤ inc) (l t : Bits) (a b : Nat) (count : Option Nat) (ba : Bool)
+/-- `findall_lsb0_chunks_eq`: for EVERY chunk increment ≥ 1 (the code uses `max(8192, 80·len(bs))`), every data
+    length, window, count and alignment flag, the chunked reverse scan yields exactly the mirrored positions of
+    all msb0 matches, in increasing lsb0 order, filtered by alignment of the lsb0 position, cut off after `count`
+    — i.e. what msb0 `findall` yields on the reversed operands.  The 8192 boundary is covered by proof. -/
+theorem findall_lsb0_chunks_eq (inc : Nat) (hinc : 1 ≤ inc) (l t : Bits) (a b : Nat) (count : Option Nat) (ba : Bool)
     (hab : a ≤ b) (hb : b ≤ l.length) (ht : t ≠ []) :
-    findallLsb0Fixed inc l t a b count ba = .ok (findallMsb0 l.reverse t.reverse a b count ba) :=
+    findallLsb0 inc l t a b count ba = .ok (findallMsb0 l.reverse t.reverse a b count ba) :=
   findall_fixed_chunks_eq_s inc hinc l t a b count ba hab hb ht
+
+/-- The public method with the code's own constant, including which arguments raise (negative count, empty
+    pattern, invalid start/end). -/
+theorem findall_lsb0_mirror (l t : Bits) (start stop : Option Int) (count : Option Int) (ba : Bool) :
+    findallOp .lsb0 l t start stop count ba = findallOp .msb0 l.reverse t.reverse start stop count ba :=
+  findall_lsb0_mirror_s l t start stop count ba
 
 /-! ### non-vacuity -/
 example : findOp .lsb0 [true, true, false, true, false, false] [true, false] none none false = .ok (some 1) := by decide
-example : multiChunk 8192 2 0 6 = false ∧ countAligned (none : Option Nat) true = false ∧
-    findallLsb0 8192 [true, true, false, true, false, false] [true, false] 0 6 none false = .ok [1, 3] := by decide
-example : findallLsb0Fixed 1 [true, false, true, true, false, true] [true] 0 6 (some 3) false = .ok [0, 2, 3] := by decide
+example : findallLsb0 8192 [true, true, false, true, false, false] [true, false] 0 6 none false = .ok [1, 3] := by decide
+example : findallLsb0 1 [true, false, true, true, false, true] [true] 0 6 (some 3) false = .ok [0, 2, 3] := by decide
+example : findallLsb0 1 [false, false, true, false] [true] 0 4 none false = .ok [1] := by decide
+example : findallLsb0 8192 [false, false, true, false, false, true, true, false, false] [false] 1 9 (some 2) true = .ok [8] := by decide
 
 end BM.C12
